@@ -29,6 +29,10 @@ _m = {}
 
 
 def build(ctx):
+    # ExtractBack.v also extracts Back/CFlow.v (used by C06), which Props/C10.v does not import
+    ok, out = vlib.coq_make(["Back/CFlow.vo"])
+    if not ok:
+        return ok, out
     ok, exe, out = vlib.build_ocaml("back", "ExtractBack.v", "back_driver.ml", "backmodel", includes=["rast_reader.ml"])
     _m["exe"] = exe
     return ok, out
@@ -62,6 +66,7 @@ def gen_cases(ctx):
 def run(ctx, cases):
     lines = [c[2] for c in cases]
     ph = vlib.harness("phases", lines, timeout_s=60)
+    ctx.last_phases = ph   # for C06: the real IR dump of every case
     real = vlib.harness("compile", lines, timeout_s=60)
     pre = preamble()
     mcases, idx = [], []
